@@ -182,6 +182,15 @@ func (u *utcNorm) paramOf(v *types.Var) (*types.Func, int) {
 
 func (u *utcNorm) mapKeysUTC(m ast.Expr) bool {
 	info := u.fi.Pkg.TypesInfo
+	// ranging directly over what a module function returns
+	if call, ok := ast.Unparen(m).(*ast.CallExpr); ok {
+		if fn, ok := calleeObj(info, call).(*types.Func); ok && strings.HasPrefix(objPkgPath(fn), modPath) && u.depth <= 6 {
+			u.depth++
+			defer func() { u.depth-- }()
+			return u.returnsUTCKeyedMap(fn)
+		}
+		return false
+	}
 	id, ok := ast.Unparen(m).(*ast.Ident)
 	if !ok {
 		return false
